@@ -895,8 +895,9 @@ def gen(seed, tier, prop="C01"):
                      "init_program_tags": r.random() < 0.85, "log": "verbose" if r.random() < 0.1 else "off",
                      "seq_advance": 0},
           "ops": [], "faults": []}
-    if sc["net"]["chunk"] == 1 and (world["project"] and len(project["tags"]) > 12):
-        sc["net"]["chunk"] = "mixed"
+    total_bytes = sum(len(t.get("init", "")) // 2 for t in project["tags"])
+    if sc["net"]["chunk"] == 1 and (len(project["tags"]) > 12 or total_bytes > 4000):
+        sc["net"]["chunk"] = "mixed"    # one-byte recv chunks only where the run stays within its raw-I/O budget
     if prop == "C17" or r.random() < 0.2:
         sc["driver"]["seq_advance"] = 65535 - r.randint(0, 40) if r.random() < 0.8 else r.randrange(65536)
     ops = [{"id": "o0", "kind": "open"}]
